@@ -50,6 +50,14 @@ class C15(Prop):
             P, V = E.gen_pair(rng, n, m, kind, k)
             yield dict(entry={"KARV": "KARV", "TSF": "LambdaTSF", "M2Q": "MatchTwoQueries", "PRV": "LambdaPRV"}[rule], family=rule.lower(), rule=rule, P=P, V=V, k=k,
                        memoize=memo, ezi=bool(i % 2), want_out=True, tb="accept", seed=i)
+        # the caller asks the elicitor a few questions directly and THEN hands it to a rule: counter, memo table and forwarded questions are those of the whole session
+        for i in range(60 if tier == "quick" else 1200):
+            rule = ["KARV", "M2Q", "TSF", "PRV"][i % 4]
+            n = rng.randint(2, 5); m = n if rule in ("M2Q", "TSF") else rng.randint(2, 6); k = rng.randint(1, m)
+            P, V = E.gen_pair(rng, n, m, rng.choice(["unit", "skew", "ties"]), k)
+            pre = [(rng.randrange(n), rng.randrange(m)) for _ in range(rng.randint(1, 5))]
+            yield dict(entry={"KARV": "KARV", "TSF": "LambdaTSF", "M2Q": "MatchTwoQueries", "PRV": "LambdaPRV"}[rule], family=rule.lower() + "_after_direct_questions", rule=rule, P=P, V=V, k=k,
+                       memoize=bool(i % 6), ezi=bool(i % 2), want_out=False, tb="accept", seed=i, pre_questions=pre)
         N = 200 if tier == "quick" else 4000
         for i in range(N):
             n = rng.randint(1, 4); m = rng.randint(1, 5)
@@ -228,13 +236,20 @@ class C15(Prop):
             if case["memoize"]:
                 if len(set(tr)) != len(tr): return ("question_forwarded_twice", "memoising elicitor forwarded a question twice")
             if obs[ck] != len(tr): return ("wrong_counter", "elicitation_count %d but %d questions were forwarded" % (obs[ck], len(tr)))
+            pre = [tuple(q) for q in case.get("pre_questions", [])]
+            if pre:      # the direct questions come first in the log; the budget is about what the RULE asks after them
+                npre = len(set(pre)) if case["memoize"] else len(pre)
+                want_pre = ([q for i_, q in enumerate(pre) if q not in pre[:i_]] if case["memoize"] else pre)
+                if [(a - fixer, b - fixer) for a, b in tr[:npre]] != want_pre: return ("wrong_forwards", "the direct questions were not forwarded as asked")
+                tr = tr[npre:]
             for i in range(n):
                 d = len({q for q in tr if q[0] - fixer == i})
                 if case["rule"] in ("KARV", "TSF", "Double"):
                     lim = 1 + k * math.ceil(math.log2(m)) if m > 1 else 1
                     if d > lim: return ("over_budget", "agent %d was asked %d distinct questions, budget %d" % (i, d, lim))
                 elif case["rule"] == "PRV":
-                    if d != k: return ("over_budget", "lambda-PRV asked agent %d %d distinct questions, lambda = %d" % (i, d, k))
+                    if (d > k) if pre else (d != k):      # (after direct questions some of the lambda answers may already be in the memo table)
+                        return ("over_budget", "lambda-PRV asked agent %d %d distinct questions, lambda = %d" % (i, d, k))
                 elif d > 2: return ("over_budget", "Match-TwoQueries asked agent %d %d distinct questions" % (i, d))
         return None
 
@@ -246,6 +261,7 @@ class C15(Prop):
             rc = E.run_case_lit(case["memoize"], obs["fixer"], Vq, cl([cq(frac(NANQ if x is None else x)) for x in obs["answers"]]), obs["trace"], obs["count"])
             return ("seq", ct(E.ckeys(case["qs"]), rc))
         fixer = 0 if case.get("ezi", True) else 1
+        if case.get("pre_questions"): return None      # (the model programs start from a fresh elicitor: sessions with a history are decided by the oracle)
         if case["rule"] == "Double" and case["side"] == 1:
             P, V, k, vt, trace, count = case["P2"], case["V2"], case["k2"], obs["vt2"], obs["trace2"], obs["count2"]
         else:
